@@ -162,6 +162,10 @@ pub fn gen_bitflip(property: &str, profile: &str, seed: u64) -> Plan {
     plan.store.deferred_min_ms = 100;
     plan.store.deferred_max_ms = 300;
     plan.store.allow_duplicates = true;
+    // two-entry metas serialise in HashMap order, which differs between processes: a flip at a byte
+    // position of such a meta would not be replayable
+    plan.n_metas = plan.n_metas.min(2);
+    sw.n_metas = plan.n_metas;
     sw.big_values = true;
     let mix = Mix { write: 70, delete: 10, idle: 8, lifecycle: 4, lifecycle_bg: 0, force: 0, free: 0, offload: 0, fsync: 0, restart: 3, clock: 0 };
     let n0 = sw.rng.range(3, 14) as usize;
